@@ -237,25 +237,29 @@ pub fn varc(o: &mut Obs, env: &Env) {
     if let Ok(cov) = varc.coverage() {
         h_layout::coverage(o, env, &cov);
     }
+    let varc_len = varc.offset_data().len() as u64;
+    // packed values: a control byte encodes at most 64 values (a zero run needs no data bytes)
+    let packed_ceiling = 64 * varc_len;
     let n = varc.var_composite_glyphs().map(|i| i.count() as usize).unwrap_or(0);
     for i in (0..n.min(env.cap(70_000, 8))).chain([n.wrapping_sub(1), n, n + 1, usize::MAX]) {
         o.helper("Varc::glyph");
         match varc.glyph(i) {
             Ok(g) => {
-                o.helper("VarcGlyph::components");
+                // (every component consumes at least one byte of the VARC table)
                 let (mut ok, mut err) = (0u32, 0u32);
-                for c in g.components().take(4096) {
-                    match c {
-                        Ok(_) => ok += 1,
-                        Err(e) => {
-                            o.err(&e);
-                            err += 1;
-                            if err > 4 {
-                                break;
-                            }
-                        }
+                let mut errs = 0u32;
+                let until_errors = g.components().take_while(move |r| {
+                    let go = errs <= 4;
+                    errs += r.is_err() as u32;
+                    go
+                });
+                o.drain("VarcGlyph::components", "varc_bytes", varc_len, 4096, until_errors, |o, c| match c {
+                    Ok(_) => ok += 1,
+                    Err(e) => {
+                        o.err(&e);
+                        err += 1;
                     }
-                }
+                });
                 o.d.u32(ok);
                 o.d.u32(err);
             }
@@ -267,12 +271,7 @@ pub fn varc(o: &mut Obs, env: &Env) {
         o.helper("Varc::axis_indices");
         match varc.axis_indices(i) {
             Ok(d) => {
-                let mut k = 0u32;
-                for v in d.iter().take(70_000) {
-                    o.d.i64(v as i64);
-                    k += 1;
-                }
-                o.d.u32(k);
+                o.drain("PackedDeltas::iter(axis_indices)", "64*varc_bytes", packed_ceiling, 70_000, d.iter(), |o, v| o.d.i64(v as i64));
             }
             Err(e) => o.err(&e),
         }
@@ -291,7 +290,11 @@ pub fn varc(o: &mut Obs, env: &Env) {
                             for i in (0..n.min(env.cap(4096, 6))).chain([n, usize::MAX]) {
                                 o.helper("MultiItemVariationData::delta_set");
                                 match d.delta_set(i) {
-                                    Ok(p) => o.d.u64(p.iter().take(70_000).map(|v| v as i64 as u64).fold(0u64, |a, b| a.wrapping_mul(31).wrapping_add(b))),
+                                    Ok(p) => {
+                                        let mut acc = 0u64;
+                                        o.drain("PackedDeltas::iter(delta_set)", "64*varc_bytes", packed_ceiling, 70_000, p.iter(), |_, v| acc = acc.wrapping_mul(31).wrapping_add(v as i64 as u64));
+                                        o.d.u64(acc);
+                                    }
                                     Err(e) => o.err(&e),
                                 }
                             }
@@ -320,14 +323,10 @@ pub fn ift(o: &mut Obs, env: &Env, t: &Ift) {
     o.d.u64(t.uri_template().len() as u64);
     match t {
         Ift::Format1(f) => {
-            o.helper("PatchMapFormat1::gid_to_entry_iter");
-            let mut k = 0u32;
-            for (g, e) in f.gid_to_entry_iter().take(env.cap(200_000, 3_000)) {
+            o.drain("PatchMapFormat1::gid_to_entry_iter", "glyphCount", f.glyph_count().to_u32() as u64, env.cap(200_000, 3_000), f.gid_to_entry_iter(), |o, (g, e)| {
                 o.d.u32(g.to_u32());
                 o.d.u32(e as u32);
-                k += 1;
-            }
-            o.d.u32(k);
+            });
             o.helper("PatchMapFormat1::entry_count");
             o.d.u32(f.entry_count());
             o.helper("PatchMapFormat1::uri_template_as_string");
